@@ -25,6 +25,7 @@ import (
 //	  | error <site> <code> <msg> <acc> <err> <via> | redirect <site> <code|d> <url> <body> <acc> <err>
 //	  | wbytes <site> <hex|nil> <acc> <err> <via> | abort <site> <code> nomsg | abort <site> <code> msg <msg> <acc> <err>
 //	  | adderr <site> | panic <site>            site = 0 … 2k-2 (block of the chain) | E (OnError) | P (OnPanic)
+//	  | fwd <site> <prog> | nest <site> <prog>   (chain sites only; see the `wx` section below)
 //	end [hc]
 //
 // `end` dispatches the request through Router.ServeHTTP, `end hc` through the second public entry point:
@@ -331,6 +332,8 @@ func validAct(f []string) bool {
 		return len(f) == 5 && okAll(dataOK(f[1]), natOK(f[2]), bitOK(f[3]))
 	case "flush", "adderr", "panic":
 		return len(f) == 1
+	case "fwd", "nest":
+		return len(f) == 2 && wxProgOK(f[1])
 	case "error":
 		return len(f) == 6 && okAll(intOK(f[1]), hexOK(f[2]), natOK(f[3]), bitOK(f[4]))
 	case "redirect":
@@ -356,6 +359,127 @@ func parseWSite(k int, s string) (site, rank int, ok bool) {
 		return 0, 0, false
 	}
 	return i, i, true
+}
+
+/**************** wx: re-dispatch of the running context, a rux router nested in the chain ****************/
+
+// Two actions that make a handler of the chain hand the request to another dispatch:
+//
+//	fwd <site> <prog>   internal forward: the handler sets c.Req.URL.Path to /q, calls Router.HandleContext(c) with
+//	                    its own context and puts the path back. /q is a route of the same router with as many route
+//	                    middleware as /p (they only call Next(), and so do the global middleware while the forward
+//	                    runs), its main handler performs <prog>. HandleContext = Reset, chain, header commit: when it
+//	                    returns the header is committed, c.Errors is empty, and the cursor stands at the end of a chain
+//	                    of the same length, so no deeper handler of the suspended chain starts afterwards.
+//	nest <site> <prog>  rux.WrapHTTPHandler(inner)(c): a second rux router is mounted in the chain; it gets c.Resp (the
+//	                    outer context's writer) as its http.ResponseWriter; its only handler performs <prog>. What the
+//	                    inner router commits (its recorded status, 200 if none, at its first write/flush or at the end
+//	                    of its chain) arrives at the outer writer as a status setting.
+//	<prog> = - | op,op,…   op = s<code> SetStatus(code) | w<hex> c.Resp.Write(bytes) (the underlying writer takes all
+//	                    of it) | f Flush
+//
+// The model side is in Drv/Writer.lean (wxStep). The clauses of the property are evaluated on the log as for every
+// other action; the return of a forward counts as a commit point (the end of a chain commits the header).
+func wxProgOK(p string) bool {
+	if p == "-" {
+		return true
+	}
+	for _, t := range strings.Split(p, ",") {
+		switch {
+		case t == "f":
+		case strings.HasPrefix(t, "s"):
+			if _, ok := parseIntOK(t[1:]); !ok {
+				return false
+			}
+		case strings.HasPrefix(t, "w"):
+			if _, ok := unhx(t[1:]); !ok {
+				return false
+			}
+		default:
+			return false
+		}
+	}
+	return true
+}
+
+func wxProgOps(p string) []string {
+	if p == "-" {
+		return nil
+	}
+	return strings.Split(p, ",")
+}
+
+// wxRunProg is the body of the forwarded-to / nested main handler. `status`, `write`, `flush` tell the
+// expectation of the property what happened.
+func wxRunProg(c *rux.Context, prog []string, status func(int), write func([]byte), flush func()) {
+	for _, t := range prog {
+		switch t[0] {
+		case 's':
+			code := atoi(t[1:])
+			status(code)
+			c.SetStatus(code)
+		case 'w':
+			b := []byte(mustUnhx(t[1:]))
+			write(b)
+			_, _ = c.Resp.Write(b)
+		case 'f':
+			flush()
+			c.Resp.(http.Flusher).Flush()
+		}
+	}
+}
+
+func wxAddForwardRoute(r *rux.Router, cfg wCfg, cur **wRun) {
+	pass := make([]rux.HandlerFunc, cfg.nr)
+	for i := range pass {
+		pass[i] = func(c *rux.Context) { c.Next() }
+	}
+	r.Add("/q", func(c *rux.Context) {
+		run := *cur
+		wxRunProg(c, run.wxProg, run.exp.status, func(b []byte) { run.exp.write(b, len(b)) }, run.exp.flush)
+	}, "GET", "HEAD", "POST").Use(pass...)
+}
+
+func (run *wRun) wxExec(c *rux.Context, f []string) {
+	prog := wxProgOps(f[1])
+	run.rec.next = nil
+	if f[0] == "fwd" {
+		run.wxProg = prog
+		run.wxDepth++
+		old := c.Req.URL.Path
+		c.Req.URL.Path = "/q"
+		defer func() {
+			c.Req.URL.Path = old
+			run.wxDepth--
+		}()
+		run.wxRouter.HandleContext(c)
+		run.exp.ioSeen = true // the end of the forwarded chain committed the header
+		return
+	}
+	// nest: the inner router records its own status and hands it over when it commits
+	innerStatus, innerCommitted := 0, false
+	commit := func() {
+		if !innerCommitted {
+			innerCommitted = true
+			if innerStatus == 0 {
+				innerStatus = 200
+			}
+			run.exp.status(innerStatus)
+		}
+	}
+	inner := rux.New()
+	inner.Add(c.Req.URL.Path, func(c2 *rux.Context) {
+		wxRunProg(c2, prog,
+			func(code int) {
+				if code > 0 {
+					innerStatus = code
+				}
+			},
+			func(b []byte) { commit(); run.exp.write(b, len(b)) },
+			func() { commit(); run.exp.flush() })
+	}, "GET", "HEAD", "POST")
+	rux.WrapHTTPHandler(inner)(c)
+	commit()
 }
 
 /**************** running one request ****************/
@@ -402,6 +526,10 @@ type wRun struct {
 	ans    []string
 	oracle *[]string
 	exp    wExpect
+
+	wxRouter *rux.Router // the router of the chain (target of `fwd`)
+	wxDepth  int         // > 0 while a `fwd` re-dispatch runs
+	wxProg   []string    // what the forwarded-to / nested main handler does
 }
 
 func (run *wRun) state(c *rux.Context) string {
@@ -532,6 +660,8 @@ func (run *wRun) exec(c *rux.Context, a *wAct) {
 		c.AddError(errors.New("handler error"))
 	case "panic":
 		panic("handler panic")
+	case "fwd", "nest":
+		run.wxExec(c, f)
 	}
 	run.ans[a.line] = res + " " + run.state(c)
 	run.midOracle(c, strings.Join(f, " "))
@@ -543,6 +673,11 @@ func buildWriterRouter(cfg wCfg, cur **wRun) *rux.Router {
 	mk := func(i int) rux.HandlerFunc {
 		return func(c *rux.Context) {
 			run := *cur
+			if run.wxDepth > 0 { // a global middleware inside a `fwd` re-dispatch: pass through
+				c.Next()
+				return
+			}
+			run.wxRouter = r
 			if i == 0 {
 				run.ctx = c
 			}
@@ -564,6 +699,7 @@ func buildWriterRouter(cfg wCfg, cur **wRun) *rux.Router {
 		r.Use(globals...)
 	}
 	r.Add("/p", mk(k-1), "GET", "HEAD", "POST").Use(routeMw...)
+	wxAddForwardRoute(r, cfg, cur)
 	if cfg.onPanic {
 		r.OnPanic = func(c *rux.Context) { (*cur).site(c, -2) }
 	}
@@ -646,7 +782,7 @@ func (writerEngine) Run(ops []string) (ans []string, oracle []string) {
 			}
 			act := append([]string{f[0]}, f[2:]...)
 			site, rk, ok := parseWSite(cfg.k, f[1])
-			if !ok || !validAct(act) {
+			if !ok || !validAct(act) || ((act[0] == "fwd" || act[0] == "nest") && site < 0) {
 				ans[i] = "bad-op"
 				continue
 			}
@@ -796,6 +932,15 @@ func (writerEngine) Corpus() []Case {
 		// HandleContext with a panicking chain: OnPanic sets the status and writes nothing; without hook it escapes
 		{Ops: []string{"chain 2 GET 1 0 none 1 0", "status 0 201 0", "panic 1", "status P 500 0", "end hc", "write 1 78 1 0 0", "end hc"}, Tag: "corpus-hc-panic"},
 		{Ops: []string{"chain 2 GET 0 0 none 0 1", "status 0 202 0", "panic 1", "end hc", "status 0 202 0", "end hc"}, Tag: "corpus-hc-escape"},
+		// internal forward (Router.HandleContext with the running context) after the handler committed the header by a
+		// write / by a flush: still one commit, Length() counts all bytes
+		{Ops: []string{"chain 1 GET 0 0 none 0 0", "status 0 201 0", "write 0 612d 2 0 0", "fwd 0 w62", "end", "status 0 202 0", "flush 0", "fwd 0 w62", "end"}, Tag: "corpus-fwd"},
+		// forward before anything was written, from a middleware: the forwarded chain commits, the deeper handlers do
+		// not start, the errors recorded before are gone (OnError does not run), later statuses are not sent
+		{Ops: []string{"chain 3 GET 0 1 none 1 1", "adderr 0", "fwd 1 s204", "status 1 500 0", "write 2 78 1 0 0", "status 3 404 0", "status E 500 0", "end", "fwd 4 -", "end hc"}, Tag: "corpus-fwd"},
+		// a rux router mounted in the chain (WrapHTTPHandler): with a body, status only, no status at all after the
+		// outer chain recorded one
+		{Ops: []string{"chain 2 GET 0 0 none 1 0", "hdr 0 " + hx("X-Outer") + " " + hx("1"), "nest 1 s201,w63726561746564", "status 2 500 0", "end", "nest 1 s204", "end", "status 0 404 0", "nest 1 w78,f,s500", "end hc"}, Tag: "corpus-nest"},
 	}
 }
 
@@ -985,5 +1130,79 @@ func (e writerEngine) Gen(r *Rand, tier string) Case {
 			ops[i] = "end hc"
 		}
 	}
-	return Case{Ops: ops, Tag: stream}
+	ops, wxTag := wxStream(r, ops, k)
+	return Case{Ops: ops, Tag: stream + wxTag}
+}
+
+// wxStream (drawn after everything else of the case; one case in eight): one request (sometimes two) gets a `fwd`
+// or a `nest` action in a block of the chain - behind a random action of the request (same block) or, when the
+// request has none, in block 0; in half of the cases a flush or a write is put right in front of it, so that the
+// header is already committed when the other dispatch starts.
+func wxStream(r *Rand, ops []string, k int) ([]string, string) {
+	if !r.Chance(1, 8) {
+		return ops, ""
+	}
+	prog := func() string {
+		var p []string
+		for i, n := 0, r.PickInt([]int{0, 1, 1, 2, 3}); i < n; i++ {
+			switch r.Intn(5) {
+			case 0, 1:
+				p = append(p, "s"+fmt.Sprint(wStatus(r)))
+			case 2, 3:
+				p = append(p, "w"+strings.TrimPrefix(hx(r.Pick([]string{"b", "inner", ""})), "-"))
+			default:
+				p = append(p, "f")
+			}
+		}
+		if len(p) == 0 {
+			return "-"
+		}
+		return strings.Join(p, ",")
+	}
+	tag := ""
+	for n := r.PickInt([]int{1, 1, 1, 2}); n > 0; n-- {
+		// the requests: [start, end) line ranges in front of every `end`
+		type rg struct{ lo, hi int }
+		var reqs []rg
+		lo := 1
+		for i := 1; i < len(ops); i++ {
+			if strings.HasPrefix(ops[i], "end") {
+				reqs = append(reqs, rg{lo, i})
+				lo = i + 1
+			}
+		}
+		if len(reqs) == 0 {
+			break
+		}
+		q := reqs[r.Intn(len(reqs))]
+		// candidate positions: behind an action of a chain block
+		at, site := q.hi, "0"
+		var cand []int
+		for i := q.lo; i < q.hi; i++ {
+			if f := strings.Fields(ops[i]); len(f) >= 2 && f[1] != "E" && f[1] != "P" {
+				cand = append(cand, i)
+			}
+		}
+		if len(cand) > 0 {
+			i := cand[r.Intn(len(cand))]
+			at, site = i+1, strings.Fields(ops[i])[1]
+		} else if q.hi > q.lo {
+			at = q.lo // only OnError / OnPanic actions: block 0 comes first
+		}
+		kind := r.Pick([]string{"fwd", "nest"})
+		var ins []string
+		if r.Bool() {
+			if r.Bool() {
+				ins = append(ins, "flush "+site)
+			} else {
+				ins = append(ins, fmt.Sprintf("write %s %s 1 0 %d", site, hx("x"), r.Intn(2)))
+			}
+		}
+		ins = append(ins, kind+" "+site+" "+prog())
+		ops = append(ops[:at:at], append(ins, ops[at:]...)...)
+		if !strings.Contains(tag, kind) {
+			tag += "+" + kind
+		}
+	}
+	return ops, tag
 }
